@@ -258,6 +258,9 @@ def _pyval(v):
     return str(v)
 
 
+ALT_MODELS = 4
+
+
 def discharge(ob, inputs=None, timeout_ms=10000, extra=None):
     """decide  /\\ pc  =>  goal.   Returns dict(verdict, model, time, backend)."""
     t0 = time.time()
@@ -279,6 +282,25 @@ def discharge(ob, inputs=None, timeout_ms=10000, extra=None):
         m = s.model()
         out['model'] = model_dict(m, inputs or {})
         out['_z3model'] = m
+        # further counter-models over the declared inputs (a first model may sit on a tie that the over-approximated
+        # float semantics allows and CPython resolves the other way; a neighbour then reproduces)
+        alts = []
+        if inputs:
+            s.set('timeout', min(timeout_ms, 2000))
+            mm = m
+            for _ in range(ALT_MODELS):
+                try:
+                    block = [t != mm.eval(t, model_completion=True) for t in inputs.values() if not z3.is_array(t)]
+                    if not block:
+                        break
+                    s.add(z3.Or(*block))
+                    if s.check() != z3.sat:
+                        break
+                    mm = s.model()
+                    alts.append(model_dict(mm, inputs))
+                except z3.Z3Exception:
+                    break
+        out['alt_models'] = alts
     else:
         out['verdict'] = 'unknown'
         out['reason'] = s.reason_unknown()
